@@ -9,7 +9,7 @@ rm -rf "$OUT"; mkdir -p "$OUT/prof"
 cd /verif/harness
 LLVM_PROFILE_FILE="$OUT/build-%p.profraw" CARGO_NET_OFFLINE=true CARGO_TARGET_DIR="$OUT/target" RUSTFLAGS="-Cinstrument-coverage" cargo build --release --offline 2>&1 | tail -1
 for p in C01 C02 C03 C04 C05 C06 C07 C08 C09 C10 C11 C12 C13 C14 C15 C16 C17 C18; do
-  for sh in 0 1 2 3; do
+  for sh in 0 1 2 3 4 5 6 7 8 9 10 11 12 13 14 15; do
     LLVM_PROFILE_FILE="$OUT/prof/$p-$sh.profraw" "$OUT/target/release/vh" run $p --tier quick --seed 1 --shard $sh --of 16 --out "$OUT/$p-$sh.json" >/dev/null 2>&1 &
   done
   wait
